@@ -110,8 +110,15 @@ func runSelector(rp *explore.Report, tier string) {
 		qs = queries[:31]
 	}
 	want := make([][]interface{}, len(datasets))
+	wantInlined := make([]map[int]interface{}, len(datasets))
 	for di, d := range datasets {
 		want[di] = monoAnswers(d, qs)
+		wantInlined[di] = map[int]interface{}{}
+		for qi, q := range qs {
+			if inl, ok := unionNameInlined[q]; ok {
+				wantInlined[di][qi] = monoAnswers(d, []string{inl})[0]
+			}
+		}
 	}
 	var k int64
 	for ai, a := range multiAssignments(tier) {
@@ -181,10 +188,17 @@ func runSelector(rp *explore.Report, tier string) {
 						rp.AddSample(map[string]interface{}{"assignment": a.String(), "selector": fmt.Sprint(pick), "query": q})
 					}
 					w := want[di][qi]
-					if gerr != nil || !reflect.DeepEqual(normNumbers(got), w) {
+					wi, hasInlined := wantInlined[di][qi]
+					dropsUnionNameFragment := hasInlined && gerr == nil && !reflect.DeepEqual(dropExtraTypename(normNumbers(got), wi), wi)
+					if gerr != nil || !reflect.DeepEqual(normNumbers(got), w) || dropsUnionNameFragment {
 						sig := fmt.Sprintf("c06/selector/gateway!=monolith/q%d", qi)
 						if gerr == nil && reflect.DeepEqual(dropExtraTypename(normNumbers(got), w), w) {
 							sig = "c06/known/extra-__typename-under-union"
+						}
+						if hasInlined && gerr == nil && !dropsUnionNameFragment {
+							sig = "c06/known/single-server-ignores-fragment-on-union-name"
+						} else if dropsUnionNameFragment {
+							w = wi
 						}
 						rp.AddViolation(&explore.Violation{Item: item + " query=" + q, Stable: true, Signature: sig,
 							Failures: []explore.Failure{{Clause: "gateway==monolith", Msg: fmt.Sprintf("gateway gives %s (err=%v), the combined server gives %s", gqlfix.JS(got), gerr, gqlfix.JS(w))}}})
